@@ -25,6 +25,15 @@ class ShortReadFile(object):
         self.pos = end
         return r
 
+    def __enter__(self):
+        return self
+
+    def __exit__(self, *a):
+        return False
+
+    def close(self):
+        pass
+
 
 class WriteBuffer(object):
     def __init__(self, empty):
@@ -41,6 +50,13 @@ class WriteBuffer(object):
 
     def close(self):
         self.closed = True
+
+    def __enter__(self):
+        return self
+
+    def __exit__(self, *a):
+        self.closed = True
+        return False
 
 
 def validate():
